@@ -36,8 +36,11 @@ def compare(ctx, kind, obj, mod, what, label):
         if len(g) != len(want):
             ctx.violation(what + ":values", "%s: %s has length %d, expected %d" % (label, name, len(g), len(want)))
             return False
+        mass = getattr(mod, "A", None) if kind == "pwc" else None
         for k, (a, b) in enumerate(zip(g, want)):
-            if not (abs(a - float(b)) <= 1e-9 * scale):
+            # constant pieces: judged piece by piece against what was summed up on that piece
+            sc = scale if mass is None else max(1.0, float(mass[k]))
+            if not (abs(a - float(b)) <= 1e-9 * sc):
                 ctx.violation(what + ":values", "%s: %s[%d]=%r, expected %r (piece [%r,%r])" % (label, name, k, a, float(b), X[k], X[k + 1]))
                 return False
     return True
@@ -124,8 +127,9 @@ class Prop(BaseProp):
                 return
             integ = ctx.call(pool[i].integral, _name="integral")
             wi = mods[i].integral()
+            # (constant pieces: the magnitudes that were summed up, not the - possibly cancelled - result)
             mass = sum(abs(float(v)) * float(mods[i].X[k + 1] - mods[i].X[k])
-                       for k, v in enumerate(mods[i].Y if kind == "pwc" else [max(abs(p), abs(q)) for p, q in zip(mods[i].Y1, mods[i].Y2)]))
+                       for k, v in enumerate(mods[i].A if kind == "pwc" else [max(abs(p), abs(q)) for p, q in zip(mods[i].Y1, mods[i].Y2)]))
             ctx.expect(abs(float(integ) - float(wi)) <= 1e-9 * max(1.0, mass), tag + ":integral-of-combination",
                        "%s: integral()=%r, combination of the operands' integrals=%r" % (label, float(integ), float(wi)))
         # every object of the pool must still match its model (catches aliasing between pool members)
